@@ -167,6 +167,10 @@ func (ts *TimeSeries) String() string {
 //
 // AppendTo method implements the AppenderTo interface.
 func (ts *TimeSeries) AppendTo(dst []byte) []byte {
+	if ts == nil {
+		// an absent series is encoded as an all-zero time range and step
+		ts = &TimeSeries{}
+	}
 	dst = ts.fromTime.AppendTo(dst)
 	dst = ts.untilTime.AppendTo(dst)
 	dst = ts.step.AppendTo(dst)
@@ -201,6 +205,11 @@ func (ts *TimeSeries) TakeFrom(src []byte) ([]byte, error) {
 	}
 
 	if ts.step == 0 {
+		if ts.fromTime == 0 && ts.untilTime == 0 {
+			// an absent series
+			ts.values = nil
+			return src, nil
+		}
 		return nil, errors.New("step must not be zero")
 	}
 	if ts.untilTime < ts.fromTime {
